@@ -106,7 +106,8 @@ pub fn exact_norm_triple_fill(p: Params, ntt: &Ntt, rng: &mut Prng, target: i64,
 }
 
 /// `shape` 0: norm shared between s1 and s2; 1: s1 = 0, all of the norm in a
-/// sparse s2 (four large coefficients); 2: s2 = +-x^j (norm 1), the rest in s1.
+/// sparse s2 (four large coefficients); 2: s2 = +-x^j (norm 1), the rest in s1;
+/// 3: like 0 with one s2 coefficient of magnitude 1024..=2047.
 pub fn exact_norm_triple_shape(p: Params, ntt: &Ntt, rng: &mut Prng, target: i64, edge: bool, fill: Option<usize>, shape: u8) -> Option<Triple> {
     let n = p.n;
     let msg = crate::world::message(rng);
@@ -150,6 +151,11 @@ pub fn exact_norm_triple_shape(p: Params, ntt: &Ntt, rng: &mut Prng, target: i64
         } else if shape == 2 {
             s2 = vec![0i64; n];
             s2[rng.usize_below(n)] = if rng.chance(1, 2) { 1 } else { -1 };
+        } else if shape == 3 {
+            // like shape 0, with one coefficient in the upper half of what the reference
+            // implementation still emits and accepts (1024..=2047)
+            let m = 1024 + rng.below(1024) as i64;
+            s2[rng.usize_below(n)] = if rng.chance(1, 2) { m } else { -m };
         }
         if let Some(slack) = fill {
             let want = (p.sig_len - 41) * 8 - slack;
